@@ -513,6 +513,9 @@ func otherStmt(s *gen.Schema) gen.Stmt {
 	case "s5":
 		return gen.Stmt{Name: "other", Kind: "insert", SQL: "INSERT INTO t_s5 (id, email, score, memo) VALUES (777, 'other@x', 7, 'o')"}
 	}
+	if s.ID == "s7" {
+		return gen.Stmt{Name: "other", Kind: "insert", SQL: "INSERT INTO t_s7 (id, ref_id, idx) VALUES (777, 7, 7)"}
+	}
 	return gen.Stmt{Name: "other", Kind: "insert", SQL: "INSERT INTO t_s6 (id, c_int) VALUES (777, 7)"}
 }
 
